@@ -6,7 +6,7 @@ use crate::rules::*;
 use crate::src::Src;
 use owlchess::{Board, Cell, Make};
 
-/// `Move` through `Board::make_move` (clone path) and `Make::make_raw` (in-place path)
+/// `Move` through `Board::make_move` (the cloning entry point): accepted iff legal; the successor is valid
 pub fn make_move_step<S: Src, const SIDE: u8, const KG: u8, const DIRECT: bool>(s: &mut S) {
     crate::stubs::draw_hash_pool(s);
     let b = match any_board(s, SIDE) {
@@ -21,29 +21,53 @@ pub fn make_move_step<S: Src, const SIDE: u8, const KG: u8, const DIRECT: bool>(
     let r = b.make_move(mv);
     vnote!("fen={} move={:?} accepted={} legal={} after={:?}", b.as_fen(), mv, r.is_ok(), want, r.as_ref().ok().map(|x| x.as_fen()));
     vassert!("a move is accepted exactly when it is legal", r.is_ok() == want);
+    if let Ok(b2) = r {
+        let q = pos_of(b2.raw());
+        // by C11 (validation exact): re-validation succeeds iff validate_ref, and reproduces the
+        // position identically iff normalisation changes nothing and the derived state is a rebuild
+        vassert!("the resulting position is valid (re-validation would succeed)", validate_ref(&q));
+        vassert!("re-validation would reproduce it identically (nothing to normalise)", normalise_ref(&q) == q);
+        let rebuilt = sets_rebuilt(s, &b2);
+        vassert!("derived sets of the result equal a rebuild", rebuilt);
+        let k = find_king(&q.cells, p.side);
+        vassert!("the side that has just moved is not left in check", !attacked_ref(&q.cells, k, 1 - p.side));
+        if DIRECT {
+            match Board::try_from(*b2.raw()) {
+                Ok(b3) => vassert!("re-validating the raw contents reproduces the position", b3.raw() == b2.raw()
+                    && b3.color(owlchess::Color::White) == b2.color(owlchess::Color::White)
+                    && b3.color(owlchess::Color::Black) == b2.color(owlchess::Color::Black)),
+                Err(_) => vassert!("re-validating the raw contents succeeds", false),
+            }
+        }
+    }
+    vcover!("accepted", want);
+    vcover!("refused: semilegal but leaves the king attacked", !want && semilegal_ref(&p, m));
+    vcover!("refused: not semilegal", !semilegal_ref(&p, m));
+}
+
+/// `Make::make_raw` (the in-place entry point used by chains): accepted iff legal; on acceptance the
+/// board holds the prescribed position; on refusal every field is exactly as it was
+pub fn make_raw_step<S: Src, const SIDE: u8, const KG: u8>(s: &mut S) {
+    crate::stubs::draw_hash_pool(s);
+    let b = match any_board(s, SIDE) {
+        Some(b) => b,
+        None => return,
+    };
+    let p = pos_of(b.raw());
+    let m = any_m_g::<S, SIDE, KG>(s);
+    vassume!(wf_ref(m));
+    let mv = mv_of(m);
+    let want = legal_ref(&p, m);
     let mut bc = b.clone();
     let rr = mv.make_raw(&mut bc);
+    vnote!("fen={} move={:?} accepted={} legal={} board afterwards={}", b.as_fen(), mv, rr.is_ok(), want, bc.as_fen());
     vassert!("the in-place entry point accepts exactly the legal moves", rr.is_ok() == want);
-    match r {
-        Ok(b2) => {
-            let q = pos_of(b2.raw());
-            // by C11 (validation exact): re-validation succeeds iff validate_ref, and reproduces the
-            // position identically iff normalisation changes nothing and the derived state is a rebuild
-            vassert!("the resulting position is valid (re-validation would succeed)", validate_ref(&q));
-            vassert!("re-validation would reproduce it identically (nothing to normalise)", normalise_ref(&q) == q);
-            let rebuilt = sets_rebuilt(s, &b2);
+    match rr {
+        Ok((mv2, _)) => {
+            vassert!("the applied move is the move given", mv2 == mv);
+            vassert!("on acceptance the board holds the position the rules prescribe", pos_of(bc.raw()) == apply_ref(&p, m));
+            let rebuilt = sets_rebuilt(s, &bc);
             vassert!("derived sets of the result equal a rebuild", rebuilt);
-            let k = find_king(&q.cells, p.side);
-            vassert!("the side that has just moved is not left in check", !attacked_ref(&q.cells, k, 1 - p.side));
-            vassert!("in-place and cloning entry points give the same position", same_board(&bc, &b2));
-            if DIRECT {
-                match Board::try_from(*b2.raw()) {
-                    Ok(b3) => vassert!("re-validating the raw contents reproduces the position", b3.raw() == b2.raw()
-                        && b3.color(owlchess::Color::White) == b2.color(owlchess::Color::White)
-                        && b3.color(owlchess::Color::Black) == b2.color(owlchess::Color::Black)),
-                    Err(_) => vassert!("re-validating the raw contents succeeds", false),
-                }
-            }
         }
         Err(_) => {
             vassert!("a refused move leaves the position exactly as it was", same_board(&bc, &b));
@@ -52,6 +76,5 @@ pub fn make_move_step<S: Src, const SIDE: u8, const KG: u8, const DIRECT: bool>(
         }
     }
     vcover!("accepted", want);
-    vcover!("refused: semilegal but leaves the king attacked", !want && semilegal_ref(&p, m));
-    vcover!("refused: not semilegal", !semilegal_ref(&p, m));
+    vcover!("refused after being applied and rolled back", !want && semilegal_ref(&p, m));
 }
